@@ -805,14 +805,14 @@ NEEDS = {
     "pb.missing_baseline": ["tgt"],
     "pb.text_in_outcome_cell": ["tgt"],
 }
-GEN_PROFILE = {"p_transfer": 0.6, "p_interaction": 0.4, "max_steps": 12, "p_source": 0.6, "p_sink": 0.7}
+GEN_PROFILE = {"p_stepped_interpolation": 0.0, "p_transfer": 0.6, "p_interaction": 0.4, "max_steps": 12, "p_source": 0.6, "p_sink": 0.7}
 
 
 @st.composite
 def cases(draw, tier):
     kind = draw(st.sampled_from(["chain"] * 4 + ["fw"] * 8 + ["db"] * 3 + ["pb"] + ["lib"] * 2))
     if kind == "chain":
-        prof = {} if tier == "quick" else {"max_ord": 6, "max_pops": 4}
+        prof = {"p_stepped_interpolation": 0.0} if tier == "quick" else {"p_stepped_interpolation": 0.0, "max_ord": 6, "max_pops": 4}
         return {"mode": "chain", "spec": draw(gen_model.model_specs(prof)), "order": draw(st.sampled_from(ORDERS)), "values": draw(st.sampled_from(VALUES))}
     site = draw(st.integers(0, SITE_RANGE - 1))
     if kind == "lib":
